@@ -232,7 +232,7 @@ class SymIntSet:
         i, j = z3.Int("i!q"), z3.Int("j!q")
         cx.assume(z3.And(c >= 0, c <= n, (n > 0) == (c >= 1)), tag="len(set(ints))")
         cx.assume(z3.Implies(c > 1, z3.And(0 <= a, a < n, 0 <= b, b < n, lift(s.get(a)) != lift(s.get(b)))), tag="len(set(ints))")
-        cx.assume(z3.Implies(c <= 1, z3.ForAll([i, j], z3.Implies(z3.And(0 <= i, i < n, 0 <= j, j < n),
+        cx.assume(z3.Implies(c <= 1, V.forall([i, j], z3.Implies(z3.And(0 <= i, i < n, 0 <= j, j < n),
                                                                      lift(s.get(i)) == lift(s.get(j))))), tag="len(set(ints))")
         return c
 
@@ -251,14 +251,27 @@ def set_from_seq(interp, s: V.SymSeq):
     cache = cx.ghost.setdefault("set_cache", {})
     if key in cache:
         return cache[key]
+    if hasattr(s, "concat_parts"):
+        pa, pb = s.concat_parts
+        sa, sb = set_from_seq(interp, pa), set_from_seq(interp, pb)
+        if isinstance(sa, set) and not sa:
+            cache[key] = sb
+            return sb
+        if isinstance(sb, set) and not sb:
+            cache[key] = sa
+            return sa
+        Su = set_union(interp, lift_set(interp, sa), lift_set(interp, sb))
+        Su.from_seq = s
+        cache[key] = Su
+        return Su
     S = V.SymSet(cx, "S")
     cache[key] = S
     j = z3.Int("j!q")
     t = z3.Const("t!q", TenS)
     w = cx.fresh_func("wit", TenS, z3.IntSort())
-    cx.assume(z3.ForAll([j], z3.Implies(z3.And(0 <= j, j < lift(s.length)), S.contains(s.get(j).ref)),
+    cx.assume(V.forall([j], z3.Implies(z3.And(0 <= j, j < lift(s.length)), S.contains(s.get(j).ref)),
                         patterns=[S.contains(s.get(j).ref)]), tag="set(seq)")
-    cx.assume(z3.ForAll([t], z3.Implies(S.contains(t), z3.And(0 <= w(t), w(t) < lift(s.length), s.get(w(t)).ref == t)),
+    cx.assume(V.forall([t], z3.Implies(S.contains(t), z3.And(0 <= w(t), w(t) < lift(s.length), s.get(w(t)).ref == t)),
                         patterns=[w(t)]), tag="set(seq)")
     S.from_seq = s
     return S
@@ -268,7 +281,7 @@ def set_from_items(interp, items):
     cx = interp.cx
     S = V.SymSet(cx, "S")
     t = z3.Const("t!q", TenS)
-    cx.assume(z3.ForAll([t], S.contains(t) == z3.Or([t == x.ref for x in items]) if items else z3.Not(S.contains(t))),
+    cx.assume(V.forall([t], S.contains(t) == z3.Or([t == x.ref for x in items]) if items else z3.Not(S.contains(t))),
               tag="set-display")
     return S
 
@@ -327,7 +340,7 @@ def seq_index_fn(interp, ks: V.SymSeq):
     if ks.distinct is not True:
         if ks.distinct is None:
             raise Unsupported("index of a sequence not known to be duplicate-free")
-    cx.assume(z3.ForAll([j], z3.Implies(z3.And(0 <= j, j < lift(ks.length)), idx(ks.get(j).ref) == j),
+    cx.assume(V.forall([j], z3.Implies(z3.And(0 <= j, j < lift(ks.length)), idx(ks.get(j).ref) == j),
                         patterns=[ks.get(j).ref]), tag="distinct-seq-index")
     ks.index_of = idx
     return idx
@@ -395,7 +408,7 @@ def p_any(interp, xs):
     w = cx.fresh_int("anyw")
     body = lambda i: lift(interp.truth(s.get(i)))
     cx.assume(z3.Implies(b, z3.And(0 <= w, w < lift(s.length), body(w))), tag="any")
-    cx.assume(z3.Implies(z3.Not(b), z3.ForAll([j], z3.Implies(z3.And(0 <= j, j < lift(s.length)), z3.Not(body(j))))), tag="any")
+    cx.assume(z3.Implies(z3.Not(b), V.forall([j], z3.Implies(z3.And(0 <= j, j < lift(s.length)), z3.Not(body(j))))), tag="any")
     return b
 
 
@@ -599,6 +612,11 @@ def p_od_fromkeys(interp, elements, value=None):
     d = s.distinct if s.distinct is not None else seq_distinct_pred(interp, s)
     if cx.branch(d):
         s2 = V.SymSeq(s.length, s.get, distinct=True, origin=s.origin)
+        for attr in ("index_of", "concat_parts", "at_key"):
+            if hasattr(s, attr):
+                setattr(s2, attr, getattr(s, attr))
+        if not hasattr(s2, "at_key") and isinstance(_try(lambda: s.get(z3.Int("I0!canon"))), V.TRef):
+            s2.at_key = lambda t: V.TRef(t)
         return V.SymMap(s2, lambda t: None)
     # duplicates: the resulting dict is strictly shorter; its content is irrelevant to the code under contract
     n2 = cx.fresh_int("dedup_len")
@@ -630,7 +648,7 @@ def seq_distinct_pred(interp, s: V.SymSeq):
     i, j = z3.Int("i!q"), z3.Int("j!q")
     n = lift(s.length)
     a, b = cx.fresh_int("dupa"), cx.fresh_int("dupb")
-    cx.assume(z3.Implies(d, z3.ForAll([i, j], z3.Implies(z3.And(0 <= i, i < j, j < n), s.get(i).ref != s.get(j).ref))),
+    cx.assume(z3.Implies(d, V.forall([i, j], z3.Implies(z3.And(0 <= i, i < j, j < n), s.get(i).ref != s.get(j).ref))),
               tag="distinct(seq)")
     cx.assume(z3.Implies(z3.Not(d), z3.And(0 <= a, a < b, b < n, s.get(a).ref == s.get(b).ref)), tag="distinct(seq)")
     s._distinct_pred = d
@@ -655,17 +673,17 @@ class PrefixSum:
         n = lift(seq.length)
         ln = lambda k: lift(seq.get(k))
         cx.assume(self.f(0) == 0, tag="prefix-sum")
-        cx.assume(z3.ForAll([j], z3.Implies(z3.And(0 <= j, j < n), self.f(j + 1) == self.f(j) + ln(j)),
+        cx.assume(V.forall([j], z3.Implies(z3.And(0 <= j, j < n), self.f(j + 1) == self.f(j) + ln(j)),
                             patterns=[self.f(j + 1)]), tag="prefix-sum")
-        cx.assume(z3.ForAll([j], z3.Implies(z3.And(0 <= j, j < n), self.f(j + 1) == self.f(j) + ln(j)),
+        cx.assume(V.forall([j], z3.Implies(z3.And(0 <= j, j < n), self.f(j + 1) == self.f(j) + ln(j)),
                             patterns=[ln(j)]) if _has_var(ln(j), j) else z3.BoolVal(True), tag="prefix-sum")
 
         # Lemma (proved once per run by induction, see tjv/contracts/theory.py: prefix_sum_monotone):
         # non-negative lengths => off is monotone on [0, n]
         # every length sequence in this code base is a sequence of tensor sizes / numels, which are >= 0 [T]
-        cx.assume(z3.ForAll([j], z3.Implies(z3.And(0 <= j, j < n), ln(j) >= 0), patterns=[ln(j)]) if _has_var(ln(j), j)
+        cx.assume(V.forall([j], z3.Implies(z3.And(0 <= j, j < n), ln(j) >= 0), patterns=[ln(j)]) if _has_var(ln(j), j)
                   else (ln(j) >= 0), tag="tensor sizes are non-negative [T]")
-        cx.assume(z3.ForAll([i2, j], z3.Implies(z3.And(0 <= i2, i2 <= j, j <= n), self.f(i2) <= self.f(j)),
+        cx.assume(V.forall([i2, j], z3.Implies(z3.And(0 <= i2, i2 <= j, j <= n), self.f(i2) <= self.f(j)),
                             patterns=[z3.MultiPattern(self.f(i2), self.f(j))]),
                   tag="prefix-sum-monotone (lemma proved by induction: theory.prefix_sum_monotone)")
 
@@ -673,7 +691,7 @@ class PrefixSum:
         # evaluations of the same concatenation at the same position give the same term)
         self.blk = cx.fresh_func("blk", z3.IntSort(), z3.IntSort())
         c = z3.Int("c!q")
-        cx.assume(z3.ForAll([c], z3.Implies(z3.And(0 <= c, c < self.f(n)),
+        cx.assume(V.forall([c], z3.Implies(z3.And(0 <= c, c < self.f(n)),
                                             z3.And(0 <= self.blk(c), self.blk(c) < n, self.f(self.blk(c)) <= c,
                                                    c < self.f(self.blk(c) + 1))), patterns=[self.blk(c)]),
                   tag="cat-block-lookup (existence of the containing block: induction on the prefix sums)")
@@ -820,7 +838,61 @@ def _key_is_target(e, g):
 
 
 def nested_symbolic_comp(interp, e, gi, it, f, kind):
-    return MISSING
+    """Innermost generator over a symbolic iterable whose element is returned as is (`x for ... for x in S`):
+    the contribution is the sequence / set itself (flattening)."""
+    if gi != len(e.generators) - 1 or kind == "dict":
+        return MISSING
+    g = e.generators[gi]
+    if g.ifs or not (isinstance(e.elt, ast.Name) and isinstance(g.target, ast.Name) and e.elt.id == g.target.id):
+        return MISSING
+    return FlatPart(as_symseq(interp, it) if not isinstance(it, V.SymSet) else it)
+
+
+class FlatPart:
+    def __init__(self, part):
+        self.part = part
+
+
+def finish_nested_parts(interp, out, kind):
+    """out mixes plain elements and FlatPart(seq/set): build the concatenation (list) or the union (set)."""
+    cx = interp.cx
+    if not any(isinstance(x, FlatPart) for x in out):
+        return V.finish_comp(interp, out, kind)
+    parts = []
+    for x in out:
+        if isinstance(x, FlatPart):
+            parts.append(x.part)
+        else:
+            parts.append(conc_seq([x]))
+    if kind == "list":
+        seqs = [p.seq(cx) if isinstance(p, V.SymSet) else p for p in parts]
+        r = seqs[0]
+        for q in seqs[1:]:
+            r = binop(interp, ast.Add(), r, q)
+        return r
+    # set: union with cardinality facts (inclusion-exclusion, [L] Finset.card_union_add_card_inter)
+    sets = [p if isinstance(p, V.SymSet) else set_from_seq(interp, p) for p in parts]
+    sets = [lift_set(interp, x) if not isinstance(x, V.SymSet) else x for x in sets]
+    r = sets[0]
+    for q in sets[1:]:
+        r = set_union(interp, r, q)
+    return r
+
+
+def set_union(interp, a: V.SymSet, b: V.SymSet):
+    cx = interp.cx
+    U_ = V.SymSet(cx, "union")
+    t = z3.Const("t!q", TenS)
+    cx.assume(V.forall([t], U_.contains(t) == z3.Or(a.contains(t), b.contains(t))), tag="set-union")
+    na, nb, nu = a.seq(cx).length, b.seq(cx).length, U_.seq(cx).length
+    d = cx.fresh_bool("disjoint")
+    w = cx.fresh_const("common", TenS)
+    cx.assume(z3.Implies(d, V.forall([t], z3.Not(z3.And(a.contains(t), b.contains(t))))), tag="card-union")
+    cx.assume(z3.Implies(z3.Not(d), z3.And(a.contains(w), b.contains(w))), tag="card-union")
+    cx.assume(z3.And(lift(nu) <= lift(na) + lift(nb), lift(nu) >= lift(na), lift(nu) >= lift(nb),
+                     (lift(nu) == lift(na) + lift(nb)) == d),
+              tag="|A u B| = |A| + |B| - |A n B| (inclusion-exclusion; Finset.card_union_add_card_inter)")
+    return U_
 
 
 # ============================================================================= operators
@@ -883,6 +955,11 @@ def binop(interp, op, a, b, inplace=False):
                     r = r * a
                 return r
             raise Unsupported("pow")
+    if isinstance(op, ast.Mult):
+        if isinstance(a, list) and isinstance(b, int) and not isinstance(b, bool):
+            return a * b
+        if isinstance(b, list) and isinstance(a, int) and not isinstance(a, bool):
+            return b * a
     if isinstance(op, ast.Add):
         if isinstance(a, list) and isinstance(b, list):
             return a + b
@@ -901,8 +978,16 @@ def binop(interp, op, a, b, inplace=False):
         if isinstance(a, (V.SymSeq,)) and isinstance(b, (V.SymSeq, list)):
             bb = b if isinstance(b, V.SymSeq) else conc_seq(b)
             n1 = lift(a.length)
-            return V.SymSeq(n1 + lift(bb.length), lambda i: V.ite_val(lift(i) < n1, a.get(i), bb.get(lift(i) - n1)),
-                            distinct=None)
+            r = V.SymSeq(n1 + lift(bb.length), lambda i: V.ite_val(lift(i) < n1, a.get(i), bb.get(lift(i) - n1)),
+                         distinct=None)
+            e0 = _try(lambda: a.get(z3.Int("I0!canon")))
+            if isinstance(e0, V.TRef) and a.distinct is True and bb.distinct is True:
+                r.concat_parts = (a, bb)
+                ia, ib = seq_index_fn(interp, a), seq_index_fn(interp, bb)
+                in_a = lambda t: z3.And(0 <= ia(t), ia(t) < n1, a.get(ia(t)).ref == t)
+                # valid as the inverse of r whenever r is duplicate-free (i.e. a and b are disjoint)
+                r.index_of = lambda t: z3.If(in_a(t), ia(t), n1 + ib(t))
+            return r
     if isinstance(op, ast.BitOr):
         from .interp import SymObj
         if isinstance(a, SymObj):
@@ -912,7 +997,7 @@ def binop(interp, op, a, b, inplace=False):
                 return interp.call(fn, [b])
             if inplace and a.payload is not None:
                 return dict_union(interp, a, b)
-        if isinstance(a, dict) and inplace:
+        if isinstance(a, (dict, V.SymMap)) and inplace:
             return dict_union(interp, a, b)
     if isinstance(op, ast.LShift):
         from .interp import SymObj
@@ -926,7 +1011,7 @@ def binop(interp, op, a, b, inplace=False):
             cx = interp.cx
             S = V.SymSet(cx, "diff")
             t = z3.Const("t!q", TenS)
-            cx.assume(z3.ForAll([t], S.contains(t) == z3.And(a.contains(t), z3.Not(b.contains(t)))), tag="set-difference")
+            cx.assume(V.forall([t], S.contains(t) == z3.And(a.contains(t), z3.Not(b.contains(t)))), tag="set-difference")
             return S
     return MISSING
 
@@ -936,6 +1021,8 @@ def dict_union(interp, a, b):
     from .interp import SymObj
     pa = a.payload if isinstance(a, SymObj) else a
     pb = b.payload if isinstance(b, SymObj) else b
+    if isinstance(pa, dict) and not pa and not isinstance(a, SymObj):
+        return to_symmap(interp, pb) if not isinstance(pb, dict) else dict(pb)
     if isinstance(pa, dict) and isinstance(pb, dict) and not any(V.is_symbolic_key(k) for k in list(pa) + list(pb)):
         pa.update(pb)
         return a
@@ -975,12 +1062,16 @@ def map_dom(interp, m: V.SymMap):
 
 
 def symmap_union(interp, a: V.SymMap, b: V.SymMap):
+    if isinstance(a.keys.length, int) and a.keys.length == 0:
+        return b
+    if isinstance(b.keys.length, int) and b.keys.length == 0:
+        return a
     da, db = map_dom(interp, a), map_dom(interp, b)
     cx = interp.cx
     # key order: a's keys then b's new keys; only the key SET and the values matter to the code under contract
     S = V.SymSet(cx, "union")
     t = z3.Const("t!q", TenS)
-    cx.assume(z3.ForAll([t], S.contains(t) == z3.Or(da(t), db(t))), tag="dict-union")
+    cx.assume(V.forall([t], S.contains(t) == z3.Or(da(t), db(t))), tag="dict-union")
     keys = S.seq(cx)
     return V.SymMap(keys, lambda tt: V.ite_val(db(tt), b.get(tt), a.get(tt)), dom=S.contains)
 
@@ -1316,7 +1407,7 @@ def value_getattr(interp, obj, name):
                 t = z3.Const("t!q", TenS)
                 b = interp.cx.fresh_bool("subset")
                 w = interp.cx.fresh_const("subw", TenS)
-                interp.cx.assume(z3.Implies(b, z3.ForAll([t], z3.Implies(obj.contains(t), o.contains(t)))), tag="issubset")
+                interp.cx.assume(z3.Implies(b, V.forall([t], z3.Implies(obj.contains(t), o.contains(t)))), tag="issubset")
                 interp.cx.assume(z3.Implies(z3.Not(b), z3.And(obj.contains(w), z3.Not(o.contains(w)))), tag="issubset")
                 return b
             return V.SymMethod(issub)
@@ -1325,7 +1416,7 @@ def value_getattr(interp, obj, name):
                 o = lift_set(interp, as_set_or_none(interp, other))
                 S = V.SymSet(interp.cx, "inter")
                 t = z3.Const("t!q", TenS)
-                interp.cx.assume(z3.ForAll([t], S.contains(t) == z3.And(obj.contains(t), o.contains(t))), tag="set-intersection")
+                interp.cx.assume(V.forall([t], S.contains(t) == z3.And(obj.contains(t), o.contains(t))), tag="set-intersection")
                 return S
             return V.SymMethod(inter)
         return MISSING
